@@ -63,7 +63,7 @@ func (f *WriteRow) Call(s *slip.Scope, args slip.List, depth int) slip.Object {
 	if !ok {
 		slip.TypePanic(s, depth, "row", args[0], "list")
 	}
-	w := s.Get("*standard-output*").(io.Writer)
+	w := s.WriterVar("*standard-output*", depth)
 	args = args[1:]
 	if 0 < len(args) {
 		switch ta := args[0].(type) {
